@@ -74,10 +74,35 @@ def gen_bottleneck(rng, k):
     return L
 
 
+def gen_mixed(rng, k):
+    """short and full segments mixed (every round of the composed write is one or two full segments and a short
+    one) through a first-hop queue that holds about one segment: drops happen while the congestion window is
+    anywhere between one and two segments, and the last acknowledgements are small"""
+    from .ncommon import A1
+    r = rng
+    cap = r.choice([1515, 1515, 1600, 2000, 3030])
+    bw = r.choice([20000, 200000, 2000000])
+    lat = r.choice([20000000, 1000000, 100000000])
+    L = ["S 1 queue 0 1000000 0", "ROUTE : 1",
+         "N 1 0 %d" % A1, "S 4 queue 0 0 0", "OUT 0 %d : 4" % A1, "S 5 queue 0 1000000 0", "IN 0 %d : 5" % A1,
+         "N 2 0 %d" % (A1 + 1), "S 8 queue 0 1000000 0", "IN 0 %d : 8" % (A1 + 1),
+         "S 7 queue %d 0 %d" % (bw, cap), "S 9 queue 0 %d 0" % lat, "OUT 0 %d : 7 9" % (A1 + 1)]
+    chunk = r.choice([1775, 1600, 2000, 3250, 1500, 3000, 1476])
+    total = r.choice([8850, 17700, 26550, 30000, 12345]) + r.choice([0, 0, 118, 1000])
+    L += ["M acc_new 1 1", "M tcp_open 1 1", "M tcp_bind 1 0 0 1337", "M listen 1 10", "M tcp_new 2 1", "M tcp_new 3 2",
+          "M accept 1 2 0 10", "M tcp_connect 3 0 %d 1337 11" % A1,
+          "H 11 tcp_write_all 3 %d %d %d 12" % (r.randrange(1000), total, chunk),
+          "H 12 expires_after 7 100000000000", "H 12 async_wait 7 14", "H 14 tcp_close 3",
+          "H 10 tcp_read_all 2 %d 13" % r.choice([4096, 65536]), "M run"]
+    return L
+
+
 def generate(rng, tier):
     n = 60 if tier == "quick" else 3000
     nb = 12 if tier == "quick" else 200
-    return [("p%d" % k, gen(rng, k)) for k in range(n)] + [("bn%d" % k, gen_bottleneck(rng, k)) for k in range(nb)]
+    nm = 30 if tier == "quick" else 600
+    return ([("p%d" % k, gen(rng, k)) for k in range(n)] + [("bn%d" % k, gen_bottleneck(rng, k)) for k in range(nb)]
+            + [("mx%d" % k, gen_mixed(rng, k)) for k in range(nm)])
 
 
 def oracle_with_model(lines, trace, mtrace):
